@@ -102,11 +102,13 @@ func init() {
 			}
 			return m
 		},
-		Enum:     enumC08,
-		Run:      runC08,
-		Required: func(string) []string { return []string{"accept", "reject: set member absent", "reject: multiset member absent", "reject: wrong container kind: set hunk on a non-array", "reject: no member with these keys"} },
-		Assume:   []string{"hunk semantics = Appendix A of DESIGN.md", "keyed members: exactly one member object agrees on all listed keys, otherwise no verdict", "whole-array replacement hunks whose outcome depends on how the removed array is compared take no verdict"},
-		Budget:   budget(5*time.Minute, 45*time.Minute),
+		Enum: enumC08,
+		Run:  runC08,
+		Required: func(string) []string {
+			return []string{"accept", "reject: set member absent", "reject: multiset member absent", "reject: wrong container kind: set hunk on a non-array", "reject: no member with these keys"}
+		},
+		Assume: []string{"hunk semantics = Appendix A of DESIGN.md", "keyed members: exactly one member object agrees on all listed keys, otherwise no verdict", "whole-array replacement hunks whose outcome depends on how the removed array is compared take no verdict"},
+		Budget: budget(5*time.Minute, 45*time.Minute),
 	})
 }
 
